@@ -146,6 +146,12 @@ def judge_run(ctx, name, unf, result, hc, has_lambds, tagsuffix=""):
     both = kept & fin0
     same_vals = np.array_equal(F[both], F0[both]) and np.array_equal(X[both], unf["Xi"][both]) and np.array_equal(P[both], unf["Phi"][both])
     ctx.check(same_vals, "completeness:values_changed", f"{name}: retained poles do not carry the values of the unfiltered solution")
+    if has_lambds and getattr(result, "Lambds", None) is not None and unf.get("Lambds") is not None:
+        Lr, L0 = np.asarray(result.Lambds), np.asarray(unf["Lambds"])
+        if Lr.shape == L0.shape:
+            kl = both & np.isfinite(L0) & ~np.isnan(Lr)
+            ctx.check(np.array_equal(Lr[kl], L0[kl]), "completeness:eigenvalues_changed", lambda: f"{name}: the eigenvalue table of the retained poles differs from the unfiltered solution "
+                      f"(largest difference {np.max(np.abs(Lr[kl] - L0[kl])):.3g}; dtype {Lr.dtype})")
     npass = np.zeros(F0.shape, int)
     judged_all = np.ones(F0.shape, bool)
     for c in crits:
